@@ -317,6 +317,7 @@ fn perturb(rng: &mut Rng, doc: &str) -> String {
         "<span data-mx-color=\"red\" title=\"t\">s</span>", "<a href=\"https://x\" target=\"_blank\">ok</a>",
         "<svg><a xlink:href=\"https://x\">t</a></svg>", "<img alt=\"a\" src=\"mxc://s/m\" srcset=\"x\">",
         "<code class=\" language-a \">c</code>", "<code class=\"language-a  language-b\">c</code>",
+        "<code class=\"language-a x language-b\">c</code>",
         "<a href=\" https://x\">l</a>", "<a href=\"HTTPS://x\">l</a>", "<del>d</del>", "<p>p</p>",
     ];
     let ins = gen::pick(rng, inserts);
